@@ -244,6 +244,14 @@ func (w *World) doSetKeys(in Intent) {
 		w.lastKeyMsg = map[string]*mhub2types.MsgDelegateKeys{}
 	}
 	w.lastKeyMsg[label] = msg
+	if in.Mut == "then_fail" {
+		// the registration is followed, in the same transaction, by a message that fails: the transaction is atomic,
+		// so nothing of the registration may remain anywhere (store or memory)
+		meta["poison"] = "1"
+		w.St.Fault("keys_registration_rolled_back")
+		w.SubmitSeq("set_keys", signer, num, seq, in.Net, meta, msg, &mhub2types.MsgCancelSendToExternal{Id: 1 << 40, Sender: signer.Addr.String(), ChainId: chain})
+		return
+	}
 	w.SubmitSeq("set_keys", signer, num, seq, in.Net, meta, msg)
 }
 
